@@ -177,7 +177,9 @@ impl Energy {
         match self {
             Energy::Prod(_) => false,
             Energy::Used(e) => e.service.is_nepb(),
-            Energy::Aux(e) => e.service.is_nepb(),
+            // Auxiliary energy not assigned to an EPB service (e.g. of a system that only feeds a cogenerator)
+            // is accounted for as a non EPB use in the balance
+            Energy::Aux(e) => !e.service.is_epb(),
             Energy::Out(_) => false,
         }
     }
